@@ -27,7 +27,6 @@ import (
 	"encoding/json"
 	"fmt"
 	"os"
-	"sort"
 	"strconv"
 	"strings"
 	"time"
@@ -102,8 +101,9 @@ type call struct {
 type world struct {
 	bus     *eventbus.EventBus
 	store   *eventbus.MemoryStore
-	returns map[int]string // edge id -> type name returned (absent = declared target)
-	calls   int            // invocations while the current event is being upcast
+	returns map[int]string      // edge id -> type name returned (absent = declared target, or chosen by lazy)
+	lazy    func(id int) string // if set: chooses (and records) the returned type of an upcaster invoked for the first time
+	calls   int                 // invocations while the current event is being upcast
 	trace   []call
 }
 
@@ -125,6 +125,9 @@ func (w *world) upcaster(id int, from, to string) eventbus.UpcastFunc {
 		r, ok := w.returns[id]
 		if !ok {
 			r = to
+			if w.lazy != nil {
+				r = w.lazy(id)
+			}
 		}
 		if len(w.trace) < 64 {
 			w.trace = append(w.trace, call{id, from, to, r})
@@ -352,116 +355,248 @@ func (w *world) replayAll(stored []*eventbus.StoredEvent) []eventRun {
 	return runs
 }
 
-// edgesOf lists the ids of the registrations that are present in the final model graph.
-func edgesOf(g *up.Graph) []int {
-	var ids []int
-	for _, es := range g.Out {
-		for _, e := range es {
-			ids = append(ids, e.ID)
-		}
-	}
-	sort.Ints(ids)
-	return ids
-}
-
-// termination checks every assignment of returned types for one history. hist carries
-// the assignment in Op.Returns when assign is nil (replay mode); otherwise all
-// assignments over retNames are enumerated. It returns violations with replay data.
+// termCase is the replay datum of the sequential parts: a history; for "termination"
+// the registrations carry the type their raw upcaster returns.
 type termCase struct {
 	Mode    string  `json:"mode"` // "termination" | "sequence"
 	History []up.Op `json:"history"`
 }
 
-func termination(hist []up.Op, names []string, enumerate bool, timeUp func() bool, report func(v viol, ops termCase), count func(evals, lying int64)) {
-	// build the registry once, mutate the assignment table
-	w := newWorld(names)
-	g := up.NewGraph()
+type found struct {
+	v  viol
+	tc termCase
+}
+
+// setup builds the registry of a history on a fresh bus whose store holds one event
+// of each name in stored. ok is false when the implementation's accept/reject answers
+// already differ from the model's (reported by the sequence part; the model then no
+// longer describes the registry).
+func setup(hist []up.Op, stored []string) (w *world, g *up.Graph, evs []*eventbus.StoredEvent, ok bool) {
+	w = newWorld(stored)
+	g = up.NewGraph()
 	for i, o := range hist {
 		acc, p := w.do(i, o)
 		if p != nil {
-			return // reported by the sequence part
+			return w, g, nil, false
 		}
 		if o.Kind == "reg" && acc != (g.Verdict(o) == up.Accept) {
-			return // reported by the sequence part; the model no longer describes the registry
+			return w, g, nil, false
 		}
 		g.Apply(o, i)
 	}
-	stored, _, err := w.store.Read(context.Background(), eventbus.OffsetOldest, 0)
-	if err != nil || len(stored) != len(names) {
-		vrt.MachineryFault("MemoryStore.Read: %v (%d events)", err, len(stored))
+	evs, _, err := w.store.Read(context.Background(), eventbus.OffsetOldest, 0)
+	if err != nil || len(evs) != len(stored) {
+		vrt.MachineryFault("MemoryStore.Read: %v (%d events)", err, len(evs))
 	}
-	ids := edgesOf(g)
-	retNames := names
-	check := func() {
+	return w, g, evs, true
+}
+
+// termCheck replays every stored event under the current assignment of returned types
+// and reports the events whose application did not terminate.
+func termCheck(w *world, g *up.Graph, hist []up.Op, evs []*eventbus.StoredEvent) []found {
+	var out []found
+	runs := w.replayAll(evs)
+	withReturns := func() []up.Op {
+		l := append([]up.Op(nil), hist...)
+		for id, rt := range w.returns {
+			if id < len(l) && l[id].Kind == "reg" && rt != l[id].To {
+				l[id].Returns = rt
+			}
+		}
+		return l
+	}
+	for _, r := range runs {
+		if r.Err != "" {
+			hh := withReturns()
+			out = append(out, found{viol{"replay-error", "ReplayWithUpcast returned an error although the callback returned nil",
+				fmt.Sprintf("history: %s\nstored type %q: %s", up.OpsString(hh), r.Type, r.Err)}, termCase{"termination", hh}})
+			continue
+		}
+		if r.Terminated {
+			continue
+		}
+		var tr []string
+		for i, c := range r.Trace {
+			if i == 8 {
+				tr = append(tr, "...")
+				break
+			}
+			tr = append(tr, fmt.Sprintf("%s->%s returned %q", c.From, c.To, c.Returned))
+		}
+		hh := withReturns()
+		out = append(out, found{viol{"nontermination", cycleSignature(r.Type, r.Trace),
+			fmt.Sprintf("history: %s\nregistered graph (model): %s\nstored event of type %q: more than %d upcaster invocations, ReplayWithUpcast stopped by the harness's sentinel panic\ninvocations: %s",
+				up.OpsString(hh), g, r.Type, callLimit, strings.Join(tr, "; "))}, termCase{"termination", hh}})
+	}
+	return out
+}
+
+func ipow(b, e int) int64 {
+	r := int64(1)
+	for i := 0; i < e; i++ {
+		r *= int64(b)
+	}
+	return r
+}
+
+// enumerateTermination covers every assignment of returned type names (drawn from
+// names) to the raw upcasters registered by hist. The assignments are enumerated
+// lazily: an upcaster's returned type is chosen when it is first invoked, and the
+// choices are backtracked depth-first. A run in which an upcaster is never invoked
+// stands for all assignments that differ only in what that upcaster would have
+// returned — the return value is the only way a raw upcaster influences the registry,
+// so those runs are identical. The number of assignments covered that way is summed
+// and must equal |names|^edges (a harness self-check).
+func enumerateTermination(hist []up.Op, names []string, timeUp func() bool, report func(f found), count func(runs, events, lyingEvents, covered int64)) {
+	w, g, evs, ok := setup(hist, names)
+	if !ok {
+		return
+	}
+	type dec struct{ id, v int }
+	var stack []dec
+	foreign := false
+	w.lazy = func(id int) string {
+		stack = append(stack, dec{id, 0})
+		w.returns[id] = names[0]
+		return names[0]
+	}
+	k := g.NumEdges()
+	inModel := map[int]bool{}
+	for _, es := range g.Out {
+		for _, e := range es {
+			inModel[e.ID] = true
+		}
+	}
+	var covered int64
+	for n := 0; ; n++ {
+		if n%64 == 63 && timeUp() {
+			return
+		}
+		fs := termCheck(w, g, hist, evs)
 		lying := int64(0)
-		for _, id := range ids {
-			if r, ok := w.returns[id]; ok && r != hist[id].To {
+		for _, d := range stack {
+			if !inModel[d.id] {
+				foreign = true // an upcaster the model considers cleared was invoked
+			}
+			if names[d.v] != hist[d.id].To {
 				lying = 1
 			}
 		}
-		count(int64(len(stored)), lying*int64(len(stored)))
-		for _, r := range w.replayAll(stored) {
-			hh := func() []up.Op {
-				l := append([]up.Op(nil), hist...)
-				for _, id := range ids {
-					if rt, ok := w.returns[id]; ok {
-						l[id].Returns = rt
-					}
-				}
-				return l
-			}
-			if r.Err != "" {
-				report(viol{"replay-error", "ReplayWithUpcast returned an error although the callback returned nil",
-					fmt.Sprintf("history: %s\nstored type %q: %s", up.OpsString(hh()), r.Type, r.Err)}, termCase{"termination", hh()})
-				continue
-			}
-			if r.Terminated {
-				continue
-			}
-			var tr []string
-			for i, c := range r.Trace {
-				if i == 8 {
-					tr = append(tr, "...")
-					break
-				}
-				tr = append(tr, fmt.Sprintf("%s->%s returned %q", c.From, c.To, c.Returned))
-			}
-			report(viol{"nontermination", cycleSignature(r.Type, r.Trace),
-				fmt.Sprintf("history: %s\nregistered graph (model): %s\nstored event of type %q: more than %d upcaster invocations, ReplayWithUpcast stopped by the harness's sentinel panic\ninvocations: %s",
-					up.OpsString(hh()), g, r.Type, callLimit, strings.Join(tr, "; "))}, termCase{"termination", hh()})
+		c := int64(0)
+		if len(stack) <= k {
+			c = ipow(len(names), k-len(stack))
 		}
+		covered += c
+		count(1, int64(len(evs)), lying*int64(len(evs)), c)
+		for _, f := range fs {
+			report(f)
+		}
+		for len(stack) > 0 && stack[len(stack)-1].v == len(names)-1 {
+			delete(w.returns, stack[len(stack)-1].id)
+			stack = stack[:len(stack)-1]
+		}
+		if len(stack) == 0 {
+			break
+		}
+		top := &stack[len(stack)-1]
+		top.v++
+		w.returns[top.id] = names[top.v]
 	}
-	if !enumerate {
-		for _, id := range ids {
-			if hist[id].Returns != "" {
-				w.returns[id] = hist[id].Returns
+	if !foreign && covered != ipow(len(names), k) {
+		vrt.MachineryFault("lazy enumeration of returned types covered %d of %d assignments for history %s", covered, ipow(len(names), k), up.OpsString(hist))
+	}
+}
+
+// reproduce re-runs one recorded case (no enumeration) and returns what it violates.
+func reproduce(tc termCase) []found {
+	var out []found
+	switch tc.Mode {
+	case "sequence":
+		vs, _ := runSequence(tc.History)
+		for _, v := range vs {
+			out = append(out, found{v, tc})
+		}
+	case "termination":
+		w, g, evs, ok := setup(tc.History, tierNames(true))
+		if !ok {
+			return nil
+		}
+		for id, o := range tc.History {
+			if o.Kind == "reg" && o.Returns != "" {
+				w.returns[id] = o.Returns
 			}
 		}
-		check()
-		return
+		plain := make([]up.Op, len(tc.History))
+		for i, o := range tc.History {
+			o.Returns = ""
+			plain[i] = o
+		}
+		out = termCheck(w, g, plain, evs)
+	default:
+		vrt.MachineryFault("unknown mode %q", tc.Mode)
 	}
-	// odometer over retNames^len(ids)
-	idx := make([]int, len(ids))
-	for n := 0; ; n++ {
-		if n%256 == 255 && timeUp() {
-			return
+	return out
+}
+
+// minimise shrinks a violating case while it keeps producing the same signature:
+// operations are dropped one at a time, then lying upcasters are made honest. The
+// result is 1-minimal (no single simplification preserves the violation).
+func minimise(f found) found {
+	has := func(tc termCase) (found, bool) {
+		for _, g := range reproduce(tc) {
+			if g.v.sig == f.v.sig {
+				return g, true
+			}
 		}
-		for k, id := range ids {
-			w.returns[id] = retNames[idx[k]]
-		}
-		check()
-		k := 0
-		for ; k < len(idx); k++ {
-			idx[k]++
-			if idx[k] < len(retNames) {
+		return found{}, false
+	}
+	best, ok := has(f.tc)
+	if !ok {
+		return f // not reproducible outside the enumeration: keep the original evidence
+	}
+	for changed := true; changed; {
+		changed = false
+		for i := range best.tc.History {
+			cand := termCase{best.tc.Mode, append(append([]up.Op(nil), best.tc.History[:i]...), best.tc.History[i+1:]...)}
+			if g, ok := has(cand); ok {
+				best, changed = g, true
 				break
 			}
-			idx[k] = 0
 		}
-		if k == len(idx) {
-			return
+		if changed {
+			continue
+		}
+		for i, o := range best.tc.History {
+			if o.Returns != "" {
+				cand := termCase{best.tc.Mode, append([]up.Op(nil), best.tc.History...)}
+				cand.History[i].Returns = ""
+				if g, ok := has(cand); ok {
+					best, changed = g, true
+					break
+				}
+			}
 		}
 	}
+	// finally rename the type names in order of first appearance (a, b, c, ...)
+	ren := map[string]string{}
+	name := func(x string) string {
+		if x == "" {
+			return ""
+		}
+		if _, ok := ren[x]; !ok {
+			ren[x] = string(rune('a' + len(ren)))
+		}
+		return ren[x]
+	}
+	cand := termCase{best.tc.Mode, append([]up.Op(nil), best.tc.History...)}
+	for i, o := range cand.History {
+		o.From, o.To, o.Returns = name(o.From), name(o.To), name(o.Returns)
+		cand.History[i] = o
+	}
+	if g, ok := has(cand); ok {
+		best = g
+	}
+	return best
 }
 
 // ---------------------------------------------------------------- (a) search
@@ -525,6 +660,15 @@ func search(c *h.Check) {
 	alpha := alphabet(names)
 	nodes := bfs(alpha, depth)
 	completed := true
+	// the first time this worker meets a signature the case is shrunk to a 1-minimal one
+	seenSig := map[string]bool{}
+	violate := func(f found) {
+		if !seenSig[f.v.sig] {
+			seenSig[f.v.sig] = true
+			f = minimise(f)
+		}
+		c.Violate(f.v.kind, f.v.sig, f.v.detail, f.tc)
+	}
 	for i := range nodes {
 		if !c.Mine(i) {
 			continue
@@ -542,25 +686,26 @@ func search(c *h.Check) {
 		if int(nodes[i].depth) < depth {
 			for _, o := range alpha {
 				seq := append(append([]up.Op(nil), hist...), o)
-				vs, g := runSequence(seq[:len(seq):len(seq)])
+				vs, _ := runSequence(seq)
 				c.Count("transitions", 1)
 				c.Count("traces_validated_against_impl", 1)
 				c.Count("evaluations", 1)
 				if o.Kind == "reg" && o.From != "" && o.To != "" && o.From != o.To && !o.NilFunc && len(hist) > 0 {
 					c.Count("nontrivial", 1)
 				}
-				_ = g
 				for _, v := range vs {
-					c.Violate(v.kind, v.sig, v.detail, termCase{"sequence", seq})
+					violate(found{v, termCase{"sequence", seq}})
 				}
 			}
 		}
 		// (b) termination in this state
-		termination(hist, names, true, c.TimeUp,
-			func(v viol, ops termCase) { c.Violate(v.kind, v.sig, v.detail, ops) },
-			func(evals, lying int64) {
-				c.Count("evaluations", evals)
-				c.Count("termination_replays", evals)
+		enumerateTermination(hist, names, c.TimeUp,
+			func(f found) { violate(f) },
+			func(runs, events, lying, covered int64) {
+				c.Count("evaluations", events)
+				c.Count("termination_replays", runs)
+				c.Count("termination_events", events)
+				c.Count("returned_type_assignments_covered", covered)
 				c.Count("nontrivial", lying)
 			})
 	}
@@ -1042,18 +1187,8 @@ func replay(c *h.Check, rf *h.ReplayFile) []vrt.Violation {
 		vrt.MachineryFault("replay: %v", err)
 	}
 	var out []vrt.Violation
-	switch tc.Mode {
-	case "sequence":
-		vs, _ := runSequence(tc.History)
-		for _, v := range vs {
-			out = append(out, vrt.Violation{Kind: v.kind, Sig: v.sig, Detail: v.detail})
-		}
-	case "termination":
-		termination(tc.History, tierNames(true), false, func() bool { return false },
-			func(v viol, _ termCase) { out = append(out, vrt.Violation{Kind: v.kind, Sig: v.sig, Detail: v.detail}) },
-			func(int64, int64) {})
-	default:
-		vrt.MachineryFault("replay: unknown mode %q", tc.Mode)
+	for _, f := range reproduce(tc) {
+		out = append(out, vrt.Violation{Kind: f.v.kind, Sig: f.v.sig, Detail: f.v.detail})
 	}
 	return out
 }
